@@ -101,4 +101,74 @@ theorem C04_reader_sees_no_protocol_error (sender : Role) (frames : List Frame) 
     rw [this]
     intro h; cases h
 
+/-! ## concrete instances (the hypotheses are satisfiable) -/
+
+/-- what a server may send: "hi", an empty ping, a Close (1000, "A") -/
+def exFrames : List Frame :=
+  [Frame.message [0x68, 0x69] (.data .text) true, Frame.ping [],
+   Frame.close (some ⟨.normal, [0x41]⟩)]
+
+theorem exFrames_legit : ∀ f ∈ exFrames, Legit .server f := by
+  intro f hf
+  simp only [exFrames, List.mem_cons, List.not_mem_nil, or_false] at hf
+  rcases hf with rfl | rfl | rfl
+  · exact ⟨rfl, rfl, rfl, rfl, ⟨fun h => (by cases h), fun h => (by cases h)⟩, by decide,
+      Or.inl ⟨rfl, (C08.C08_wellFormedB_iff _).mp (by decide)⟩⟩
+  · exact ⟨rfl, rfl, rfl, rfl, ⟨fun h => (by cases h), fun h => (by cases h)⟩, by decide,
+      Or.inr (Or.inr (Or.inl ⟨rfl, by decide⟩))⟩
+  · exact ⟨rfl, rfl, rfl, rfl, ⟨fun h => (by cases h), fun h => (by cases h)⟩, by decide,
+      Or.inr (Or.inr (Or.inr (Or.inr ⟨rfl, by decide,
+        Or.inr ⟨3, 232, [0x41], rfl, (C08.C08_wellFormedB_iff _).mp (by decide)⟩⟩)))⟩
+
+theorem exFrames_closeLast : CloseLast exFrames := by
+  intro pre f post he hf
+  rcases pre with _ | ⟨a, _ | ⟨b, _ | ⟨c, pre⟩⟩⟩
+  · simp only [exFrames, List.nil_append, List.cons.injEq] at he
+    rw [← he.1] at hf; cases hf
+  · simp only [exFrames, List.cons_append, List.nil_append, List.cons.injEq] at he
+    rw [← he.2.1] at hf; cases hf
+  · simp only [exFrames, List.cons_append, List.nil_append, List.cons.injEq] at he
+    exact he.2.2.2.symm
+  · have := congrArg List.length he
+    simp only [exFrames, List.length_cons, List.length_append, List.length_nil] at this
+    omega
+
+/-- the wire image: 4 + 2 + 5 bytes -/
+def exWire : Bytes := encodeAll exFrames
+
+example : exWire.length = 11 := by decide
+
+example : ∀ n c, (Spec.decode .client false ⟨none, none⟩ (exWire.take n)).2 ≠ .error c :=
+  fun n => C04_no_error_on_legit_stream .server exFrames n exFrames_legit exFrames_closeLast
+    ⟨none, none⟩ ⟨rfl, rfl⟩
+
+set_option maxRecDepth 20000 in
+example : Spec.decode .client false ⟨none, none⟩ exWire =
+    ([.text [0x68, 0x69], .ping [], .close (some ⟨.normal, [0x41]⟩)], .closed) := by decide
+example : Spec.decode .client false ⟨none, none⟩ (exWire.take 8) =
+    ([.text [0x68, 0x69], .ping []], .needMore) := by decide
+
+def exCfg : Config := { maxFrame := none, maxMsg := none }
+
+/-- a client reader: three bytes pre-read, the rest in pieces with WouldBlock in between, the
+Close frame complete -/
+def exCtx : Ctx :=
+  { role := .client, cfg := exCfg,
+    codec := { inBuf := exWire.take 3, maxOut := usizeMax, writeLen := 131072 } }
+
+def exT : Transport :=
+  { rd := [.data ((exWire.drop 3).take 2), .err .wouldBlock, .data ((exWire.drop 5).take 5),
+           .err .wouldBlock, .data (exWire.drop 10)],
+    wr := [], fl := [] }
+
+example : ∀ p, (readAll (readAllFuel { c := exCtx, t := exT }) { c := exCtx, t := exT }).2 ≠
+    .error (.protocol p) :=
+  C04_reader_sees_no_protocol_error .server exFrames 11 exFrames_legit exFrames_closeLast exCfg
+    ⟨rfl, rfl, by decide⟩ (exWire.take 3) exCtx rfl exT (by decide) rfl ⟨rfl, rfl, rfl, rfl⟩ []
+    (by decide) (by decide)
+
+set_option maxRecDepth 20000 in
+example : (readAll (readAllFuel { c := exCtx, t := exT }) { c := exCtx, t := exT }).1 =
+    [.text [0x68, 0x69], .ping [], .close (some ⟨.normal, [0x41]⟩)] := by decide
+
 end WsProofs.C04
